@@ -34,4 +34,18 @@ theorem fexpand_ilast_eq (ns : Nat) : Src.C18.fexpand_ilast ns = (SpecIdx.fexpan
   try rw [Int.tdiv_eq_ediv_of_nonneg (by omega)]
   omega
 
+/-- `fscale`: the number of non-negative bins (`np.floor(ns / 2) + 1`) and the start of the mirrored slice (`-2 + ns % 2`)
+as written in the source are the model's (`fscale_eq_named`). -/
+theorem fscale_count_eq (ns : Nat) : Src.C18.fscale_count ns = (SpecIdx.fscaleCount ns : Int) := by
+  unfold Src.C18.fscale_count SpecIdx.fscaleCount
+  try simp only [Int.fdiv_eq_ediv_of_nonneg _ (by omega : (0 : Int) ≤ 2), Int.fmod_eq_emod_of_nonneg _ (by omega : (0 : Int) ≤ 2)]
+  try rw [Int.tdiv_eq_ediv_of_nonneg (by omega)]
+  omega
+
+theorem fscale_start_eq (ns : Nat) : Src.C18.fscale_start ns = SpecIdx.fscaleStart ns := by
+  unfold Src.C18.fscale_start SpecIdx.fscaleStart
+  try simp only [Int.fdiv_eq_ediv_of_nonneg _ (by omega : (0 : Int) ≤ 2), Int.fmod_eq_emod_of_nonneg _ (by omega : (0 : Int) ≤ 2)]
+  simp only [Int.ofNat_eq_natCast]
+  omega
+
 end IblVerif.Tie.C18
